@@ -44,9 +44,9 @@ func ruxYield(site string) {
 	if i < 0 {
 		return // unknown site (a change under test added one): never scheduled on
 	}
-	probeSite(i)
 	taskCacheAdd(i)
 	if shCur() < 0 {
+		probeSite(i) // (sites reached inside the scheduler are counted by taskYield)
 		return
 	}
 	if i == siteLockWait {
